@@ -115,6 +115,8 @@ def run(chk):
             nf += 1
             case = dict(carrier=ci, t=t, lam=lam, norm=car._esc_norm, tcc=car.tcc, md=car.md, rate=rate, y=[float(v) for v in y])
             chk.note_distinct(case)
+            if not chk.samples:
+                chk.samples.append(dict(kind="field-level scale pair", case=dict(case, y=case["y"][:6])))
             for name in ("sev", "esc", "total"):
                 outs = []
                 for yy, rr in ((y, rate), (y2, lam * rate)):
